@@ -271,13 +271,52 @@ func (c *Conn) fault(op Op, k int) (FaultKind, error, func(int) int) {
 	return FaultNone, c.sticky, c.maxRead
 }
 
-func (c *Conn) stall(dl *deadline) error {
+// stall blocks until the conn is closed or its deadline passes. Write stalls additionally end after
+// StallRealCap of REAL time: code that writes while holding a sync.Mutex another goroutine waits for
+// would otherwise wedge a synctest bubble (a mutex waiter is not durably blocked, so virtual time
+// cannot advance to the deadline). Waiting on a channel made outside the bubble freezes virtual time
+// for that long and then reports a timeout, which is what the deadline would have reported.
+func (c *Conn) stall(dl *deadline, write bool) error {
+	var real <-chan struct{}
+	if write {
+		real = RealAfter(StallRealCap)
+	}
 	select {
 	case <-c.closed:
 		return io.ErrClosedPipe
 	case <-dl.wait():
 		return os.ErrDeadlineExceeded
+	case <-real:
+		return os.ErrDeadlineExceeded
 	}
+}
+
+// StallRealCap bounds a write stall in real time.
+var StallRealCap = 25 * time.Millisecond
+
+var (
+	realMu   sync.Mutex
+	realReqs = make(chan time.Duration)     // made at init: outside every bubble
+	realResp = make(chan (<-chan struct{})) // made at init: outside every bubble
+)
+
+func init() {
+	// started at package init, i.e. outside every bubble: its timers and channels are real
+	go func() {
+		for d := range realReqs {
+			c := make(chan struct{})
+			time.AfterFunc(d, func() { close(c) })
+			realResp <- c
+		}
+	}()
+}
+
+// RealAfter returns a channel (made outside any bubble) that is closed after d of real time.
+func RealAfter(d time.Duration) <-chan struct{} {
+	realMu.Lock()
+	defer realMu.Unlock()
+	realReqs <- d
+	return <-realResp
 }
 
 func (c *Conn) Read(p []byte) (int, error) {
@@ -287,7 +326,7 @@ func (c *Conn) Read(p []byte) (int, error) {
 	case FaultPeerClose:
 		c.peer.Close()
 	case FaultStall:
-		return 0, c.stall(&c.rdl)
+		return 0, c.stall(&c.rdl, false)
 	}
 	if sticky != nil {
 		if sticky == io.EOF {
@@ -354,7 +393,7 @@ func (c *Conn) Write(p []byte) (int, error) {
 	case FaultPeerClose:
 		c.peer.Close()
 	case FaultStall:
-		return 0, c.stall(&c.wdl)
+		return 0, c.stall(&c.wdl, true)
 	}
 	if sticky != nil {
 		if sticky == io.EOF {
@@ -441,6 +480,26 @@ func (l *Listener) Connect(from ma.Multiaddr, bufMax int) (dialer, listenerSide 
 	}
 }
 
+// Offer queues an already created listener-side endpoint; it blocks while the backlog is full and
+// returns false if the listener is (or gets) closed.
+func (l *Listener) Offer(b *Conn) bool {
+	select {
+	case <-l.closed:
+		return false
+	default:
+	}
+	select {
+	case l.ch <- b:
+		// the listener may have been closed in between: make sure the conn does not linger
+		if isClosedChan(l.closed) {
+			l.Drain()
+		}
+		return true
+	case <-l.closed:
+		return false
+	}
+}
+
 func (l *Listener) Accept() (manet.Conn, error) {
 	select {
 	case <-l.closed:
@@ -458,8 +517,10 @@ func (l *Listener) Accept() (manet.Conn, error) {
 	}
 }
 
+// Close closes the listener; connections still waiting in the backlog are reset, as a kernel does.
 func (l *Listener) Close() error {
 	l.once.Do(func() { close(l.closed) })
+	l.Drain()
 	return nil
 }
 
